@@ -22,7 +22,7 @@ prop("C01", True,
      None)
 prop("C02", True,
      ME + "; the two segment predicates and the per-vertex classifier are replaced by oracles whose answers are enumerated; exhaustive abstract interpretation over orderings for the comparison-only prefixes of the two segment predicates",
-     "(R1) with every oracle answer false each segment predicate is asked about every segment of every ring exactly once, the closing pair included; (R2) a single 'on the segment' answer gives OnEdge at once, crossings toggle Inside/Outside summed over rings and member polygons; (R3) a ring is never skipped when the point is inside or on its box: the same runs on rings whose box the point only touches, or enters only thanks to the last vertex of an unclosed ring; (R4) the vertex-wise receivers consult every vertex/member and return Outside exactly when one is classified Outside; (R5) every answer the two segment predicates give by comparisons alone equals the order-level geometric truth for all orderings of {p,a,b} per axis.",
+     "(R1) with every oracle answer false each segment predicate is asked about every segment of every ring exactly once, the closing pair included; (R2) a single 'on the segment' answer gives OnEdge at once, crossings toggle Inside/Outside summed over rings and member polygons; (R3) a ring is never skipped when the point is inside or on its box: the same runs on rings whose box the point only touches or enters only thanks to the last vertex of an unclosed ring, and on polygons whose rings come in an unusual order (a ring away from the point listed before the ring around it, an empty first ring, a member away from the point first); (R4) the vertex-wise receivers consult every vertex/member and return Outside exactly when one is classified Outside; (R5) every answer the two segment predicates give by comparisons alone equals the order-level geometric truth for all orderings of {p,a,b} per axis.",
      "Not decided: the final slope comparisons of the two segment predicates (division, rounding), i.e. the classification of points that survive the order-level exits. Thin by nature.",
      None)
 prop("C03", True,
@@ -36,7 +36,7 @@ prop("C04", True,
      "Not decided: NaN and -0 behaviour of math.Min/Max; geometries larger than the models (up to 3 members per level, runs of empty members).",
      None)
 prop("C05", True,
-     ME + " with encoding/binary replaced by a typed stream and the standard hexadecimal functions described; SSA provenance analysis for result freshness",
+     ME + " with encoding/binary replaced by one abstract stream that typed transfers (binary.Read/Write) and raw ones (io.ReadFull, Write, ByteOrder.UintNN/PutUintNN, math.Float64bits) share; the hexadecimal wrapper run on the real bytes of the model messages with encoding/hex, strings.Builder and bytes.Buffer evaluated on concrete bytes; context-sensitive SSA provenance analysis (followed through function-typed parameters and closures) for result freshness",
      "(R1) for model geometries of all seven types and both byte orders the stream wkb.Write produces is the OGC layout (order byte, code, counts = members that follow, members complete WKB of their own, every multi-byte item in the requested order); (R2) Read on each reference stream returns the geometry and consumes the stream exactly, members in the other byte order decode correctly, point arrays longer than the allocation chunk come back complete; (R3) truncated messages, unknown codes, bad flags and members of the wrong kind are rejected; (R4) hex.Encode returns the lower-case hexadecimal text of exactly wkb.Encode's stream for the same geometry and byte order and an error where wkb.Encode gives one; hex.Decode returns what wkb.Decode returns on the bytes DecodeString gives, and an error — never a panic — for a text that is not hexadecimal; (R5) the returned bytes are freshly allocated.",
      "Not decided: encoding/binary's and encoding/hex's own behaviour (trusted: bit-exact float64 transfer, lower-case digits); hence NaN payload preservation follows from that trust. Model sizes: up to 3 members per level, point arrays of 1024/1025/2049.",
      None)
@@ -47,18 +47,18 @@ prop("C06", True,
      None)
 prop("C07", True,
      ME + " of the WKB and GeoJSON decoders on malformed inputs (typed-stream and tree models shared with C05/C06); path-sensitive error-before-use dataflow",
-     "(R1) every truncation of the model messages, counts of 2^28 with no or little payload, unknown codes, invalid flags and members of the wrong kind give an error, nothing panics and no make is sized by an announced count above the chunk limit; (R2) malformed GeoJSON documents give an error, never a panic; (R3) no decoder function uses a value before testing the error it was returned with; (R4) writer and reader agree on the layout, so a decoded value re-encodes to an accepted message.",
+     "(R1) every truncation of the model messages, counts of 2^28 with no or little payload, unknown codes, invalid flags and members of the wrong kind give an error, nothing panics and no make is sized by an announced count above the allowance (4096 elements or 64 KiB); (R2) malformed GeoJSON documents give an error, never a panic; (R3) no decoder function uses a value before testing the error it was returned with; (R4) writer and reader agree on the layout, so a decoded value re-encodes to an accepted message.",
      "Not decided: total memory as a multiple of input length beyond 'no allocation sized by an unchecked count'; encoding/json's and encoding/hex's own behaviour.",
      None)
 prop("C08", True,
-     ME + " with symbolic parameters and positions: the NewTransform pipeline is interpreted with the projection members and the datum shift left as named operations; the inverse members of the registered projections are interpreted for northern and southern standard parallels; scalar helpers are classified by behaviour; SSA backward data-dependence of closure results; registry table extraction",
-     "(R1) in all forward/inverse closures of the registered projections every success return yields coordinates that depend on the inputs; (R2) for eleven pairs of references (units, prime meridians, axis orders, geographic and projected, a datum shift on one or both sides) the term NewTransform computes for (x, y) equals: source unit, source inverse member, source prime meridian, datum shift (through WGS84 in two legs where that route is taken), destination prime meridian, destination forward member, destination unit, axis flips on their own side; (R3) all eight projections are registered with constructors yielding both members; (R4) in each inverse the longitude depends on Long0 and the latitude does not; (R5) in every projection whose longitude is a polar angle scaled by a quantity that follows the standard parallels, that angle is taken of offsets that change sign together with the cone constant; (R6) every angle-normalising helper reachable from the constructors is the identity on (−π, π), has period 2π and is odd. Necessary for inverse(forward(p)) = p.",
-     "Not decided: the projection formulas themselves (three independently seeded formula changes — an LCC scale term, a transverse-Mercator sign, an Albers cone constant — are not reported), convergence of the iterative solvers, tolerance figures.",
+     ME + " with symbolic parameters and positions: the NewTransform pipeline is interpreted with the projection members and the datum shift left as named operations; the inverse members of the registered projections are interpreted for northern and southern standard parallels; scalar helpers are classified by behaviour; the forward and inverse members of every registered projection are evaluated to terms (dependence on inputs and central meridian, longitude round trip as an identity)",
+     "(R1) the terms both members of every registered projection return depend on their inputs; (R2) for eleven pairs of references (units, prime meridians, axis orders, geographic and projected, a datum shift on one or both sides) the term NewTransform computes for (x, y) equals: source unit, source inverse member, source prime meridian, datum shift (through WGS84 in two legs where that route is taken), destination prime meridian, destination forward member, destination unit, axis flips on their own side; (R3) all eight projections are registered with constructors yielding both members; (R4) in each inverse the longitude depends on Long0 and the latitude does not; (R5) in every projection whose longitude is a polar angle scaled by a quantity that follows the standard parallels, that angle is taken of offsets that change sign together with the cone constant; (R6) every angle-normalising helper reachable from the constructors is the identity on (−π, π), has period 2π and is odd; (R7) for the projections whose longitude has a closed form (longlat, merc, lcc, aea, eqdc) the inverse evaluated on the forward member's own terms returns the longitude as a term, for northern and southern parallels. Necessary for inverse(forward(p)) = p.",
+     "Not decided: the projection formulas themselves (of three independently seeded formula changes, the LCC scale term is now reported by R7 and the Albers cone constant by C09.R10; a hemisphere choice inside the spherical transverse-Mercator inverse is not), the latitude round trip, convergence of the iterative solvers, tolerance figures.",
      None)
 prop("C09", True,
-     "table agreement between Go composite literals (constants folded by go/types) and the bundled proj4js 2.3.12 sources read by a small JS-subset reader; typed-constant rule for integer division in float context; " + ME + " of proj.Parse with symbolic parameter values (angle units, datum classification), of the geocentric shift functions (found by behaviour) against the Helmert formulas as rational terms, of the whole datum shift with the geodetic↔geocentric conversions as named operations, and of the NewTransform pipeline; a two-point e/e² type system over call sites",
-     "(R1, complete for this clause) all ellipsoids, datums, prime meridians, units and named numeric constants equal the bundled proj4js source as float64; (R2) no integer-constant quotient is used as a float coefficient; (R3) every PROJ.4 key that proj4js multiplies by D2R stores P × deg2rad once and no other numeric key does, incl. named prime meridians; (R4) the height produced by one datum shift reaches the next; (R6) the 3- and 7-parameter shifts to and from WGS84 equal the Helmert formulas in the stored parameters, and between a 7-parameter and a 3-parameter datum the conversion back to geodetic coordinates is given exactly from₃(to₇(G)) of the source's geocentric position G, all three ordinates travelling through; (R7) eccentricity typing e / e²; (R8) the pipeline applies each reference's unit, prime meridian and member once, mirrored around the shift (eleven pairs, shared with C08.R2); (R9) a +towgs84 list is classified and converted (arc seconds, ppm) as proj4js does.",
-     "Not decided: agreement of the projection formulas with proj4js (only their parameters, tables and the wiring around them); one open known finding (R4: height dropped between two datum shifts, 0.93 mm).",
+     "table agreement between the package's tables as they stand after initialisation (read through the interpreter) and the bundled proj4js 2.3.12 sources read by a small JS-subset reader; typed-constant rule for integer division in float context; " + ME + " of proj.Parse with symbolic parameter values (angle units, datum classification), of the geocentric shift functions (found by behaviour) against the Helmert formulas as rational terms, of the whole datum shift with the geodetic↔geocentric conversions as named operations, and of the NewTransform pipeline; a two-point e/e² type system over call sites",
+     "(R1, complete for this clause) all ellipsoids, datums, prime meridians, units and named numeric constants equal the bundled proj4js source as float64; (R2) no integer-constant quotient is used as a float coefficient; (R3) every PROJ.4 key that proj4js multiplies by D2R stores P × deg2rad once and no other numeric key does, incl. named prime meridians; (R4) the height produced by one datum shift reaches the next; (R6) the 3- and 7-parameter shifts to and from WGS84 equal the Helmert formulas in the stored parameters, and between a 7-parameter and a 3-parameter datum the conversion back to geodetic coordinates is given exactly from₃(to₇(G)) of the source's geocentric position G, all three ordinates travelling through; (R7) eccentricity typing e / e²; (R8) the pipeline applies each reference's unit, prime meridian and member once, mirrored around the shift (eleven pairs, shared with C08.R2); (R9) a +towgs84 list is classified and converted (arc seconds, ppm) as proj4js does; (R10) with a single standard parallel the cone constant of every conic — the coefficient of the longitude in the polar angle of the forward easting — is, as a term, the sine of the stored parallel (Snyder), whatever the latitude of origin.",
+     "Not decided: agreement of the projection formulas with proj4js beyond the cone constant of R10 (only their parameters, tables and the wiring around them); one open known finding (R4: height dropped between two datum shifts, 0.93 mm).",
      None)
 prop("C10", True,
      ME + " of the eight Transform methods with a host transformer (incl. failure at the k-th vertex), of the axis adjustment, of the NewTransform pipeline and of the members of every registered projection with symbolic parameters (terms before and after an unrelated call, reference dumps before and after); SSA effect analysis of the transformer closures (captured-variable stores); path-sensitive error-before-use dataflow",
@@ -96,14 +96,14 @@ prop("C16", True,
      "Not decided: go-shp's own file I/O and dBase number formatting (modelled, not analysed), float text round trip to 10 decimals beyond the column widths.",
      None)
 prop("C17", True,
-     ME + " of wkt.Encode with strconv's float formatting replaced by coordinate tokens; the emitted text is parsed by an OGC WKT recogniser held in the checker; SSA provenance analysis for result freshness",
+     ME + " of wkt.Encode with strconv's float formatting replaced by coordinate tokens; the emitted text is parsed by an OGC WKT recogniser held in the checker; context-sensitive SSA provenance analysis (followed through function-typed parameters and closures) for result freshness",
      "(R1) for each of the five supported types and all member-count combinations 1..3 per nesting level the emitted text is accepted by the OGC WKT grammar with the right member counts at every level and every coordinate once, in storage order, X before Y; (R2) every float formatting performed uses a format in eEfgG, precision -1, 64 bits (shortest round-tripping text); (R3) exactly Point, LineString, MultiLineString, Polygon and MultiPolygon are encoded, everything else is an error; (R4) the text is freshly allocated.",
      "Not decided: strconv's contract (trusted).",
      None)
 prop("C18", True,
-     "lockset analysis (path-sensitive must-hold locksets with defer, field→mutex table derived from the struct), lock-order graph over the package call graph, flow facts for the pass barrier and the pass flag (captured variable or mutex-guarded field reached through methods; one pass per call with the loop in the caller), request flow of the per-object results through assignments, ||, helpers and loops, fixpoint-completeness rule from the KeepFuncs' read set; " + ME + " of the sequential semantics: Filter, Check and the per-object functions on model documents with the package's own keep functions, maps walked in both orders",
-     "For all schedules of the worker pool (the quantifier tests cannot reach): (R1) every access to the six guarded maps in code reachable from the errgroup workers (incl. the KeepFunc closures) holds the map's mutex in the right mode, the another-pass flag is written only under its mutex and untouched by the spawner between Go and Wait; (R2) every acquire is released on all exits and the acquisition-order graph incl. callee acquisitions is acyclic; (R3) no caller discards the another-pass result of a per-object function; (R4) every concurrent store into a set that a KeepFunc consults must request another pass (fixpoint completeness); (R6) workers are joined before the flag is read or reset, every object reaches its function on its type alone. For the values computed (R7): on eight documents (shared nodes, relations of ways, nodes and relations, a chain three deep, a cycle, a dangling reference) Filter returns exactly the selected objects and what they reference, transitively, whichever way maps are walked, idempotently, accepted by Check; the per-object functions driven through the pass protocol in file, reverse and interleaved order reach the same least closed set; with KeepBounds in file order the least set closed under selection-by-what-is-stored and references.",
-     "Not decided: interleavings inside one per-object call (what R1 and R4 are about, structurally), termination of the pass loop on large inputs. Three open known findings under R4 (KeepBounds reads Nodes/Ways/Relations while workers fill them; schedule replayed in demos/osm_whitebox).",
+     "lockset analysis (path-sensitive must-hold locksets with defer, field→mutex table derived from the struct), lock-order graph over the package call graph, flow facts for the pass barrier and the pass flag (captured variable or mutex-guarded field reached through methods; one pass per call with the loop in the caller), request flow of the per-object results through assignments, ||, helpers and loops, fixpoint-completeness rule from the KeepFuncs' read set; " + ME + " of the sequential semantics: Filter, Check, the per-object functions and the extraction loop itself (goroutines run when waited for, channels as queues: the schedule in which the first worker takes every object in the order scanned) on model documents with the package's own keep functions, maps walked in both orders",
+     "For all schedules of the worker pool (the quantifier tests cannot reach): (R1) every access to the six guarded maps in code reachable from the errgroup workers (incl. the KeepFunc closures) holds the map's mutex in the right mode, the another-pass flag is written only under its mutex and untouched by the spawner between Go and Wait; (R2) every acquire is released on all exits and the acquisition-order graph incl. callee acquisitions is acyclic; (R3) no caller discards the another-pass result of a per-object function; (R4) every concurrent store into a set that a KeepFunc consults must request another pass (fixpoint completeness); (R6) workers are joined before the flag is read or reset, every object reaches its function on its type alone. For the values computed (R7): on eight documents (shared nodes, relations of ways, nodes and relations, a chain three deep, a cycle, a dangling reference) Filter returns exactly the selected objects and what they reference, transitively, whichever way maps are walked, idempotently, accepted by Check; the per-object functions driven through the pass protocol in file, reverse and interleaved order reach the same least closed set; the extraction loop, given a scanner over each document in nine orders, reads again until nothing new is asked for and returns that set; with KeepBounds in file order the least set closed under selection-by-what-is-stored and references.",
+     "Not decided: schedules other than the sequential one for the values computed, interleavings inside one per-object call (what R1 and R4 are about, structurally), termination of the pass loop on large inputs. Three open known findings under R4 (KeepBounds reads Nodes/Ways/Relations while workers fill them; schedule replayed in demos/osm_whitebox).",
      None)
 prop("C19", True,
      ME + " of ShortestRoute on a small network built through AddLink with symbolic link lengths and speeds (a reference valuation orders them), gonum's A* transcribed over the interpreted graph and its Weighted interface; type-level conformance check (go/types.Implements of the AStar graph argument against gonum's path.Weighted); purity rule for the query path",
@@ -112,7 +112,7 @@ prop("C19", True,
      None)
 prop("C20", True,
      ME + " of proj.Parse with symbolic parameters: every number in the PROJ.4 and OGC WKT texts is a placeholder that becomes a symbol, unit conversions and DeriveConstants are carried as normal-form polynomials, branches on parameter values follow a stated reference valuation (an ordinary ellipsoid), ranged-over maps are walked in both orders; the definition registry is read after interpreting the package's init functions; SR.Equal is interpreted on parsed references with reflection described by go/types; path rule for NewTransform's identity shortcut",
-     "(R1) the WKT and PROJ.4 texts of the same system (five WKT projection names, centre/azimuth and central_parallel variants, a geographic system) store every parameter in the same SR field; (R2) angles come out as symbol × deg2rad from either spelling, ratios bare, the WKT false origin as symbol × declared unit whatever the clause order, UNIT reaches ToMeter, SPHEROID[a,1/f] and +a +rf give identical derived constants; (R3) both projection names map to the same constructor; every registered name is a definition equal to a fresh parse of its text or an alias bound to the identical *SR; (R4) NewTransform returns nil exactly where Equal is true; (R5) Equal is true for two parses of one text and false — never a panic — when any float, NaN marker, string, flag, datum-shift value or length, or nested pointer differs; (R6) a text with competing keys (k/k_0, units/to_meter, ellps/a, datum/towgs84, in either order) and a projected WKT give identical references whichever way maps are walked; (R7) datum-shift lists of three and seven values (also rotation-free and scale-free) keep every value in order, identically from both spellings.",
+     "(R1) the WKT and PROJ.4 texts of the same system (five WKT projection names, centre/azimuth and central_parallel variants, a geographic system) store every parameter in the same SR field; (R2) angles come out as symbol × deg2rad from either spelling, ratios bare, the WKT false origin as symbol × declared unit whatever the clause order, UNIT reaches ToMeter, SPHEROID[a,1/f] and +a +rf give identical derived constants; (R3) both projection names map to the same constructor; every registered name is a definition equal to a fresh parse of its text or an alias bound to the identical *SR; (R4) NewTransform returns nil exactly where Equal is true; (R5) Equal is true for two parses of one text and false — never a panic — when any float, NaN marker, string, flag, datum-shift value or length, or nested pointer differs; (R6) a text with competing keys (k/k_0, units/to_meter, ellps/a, datum/towgs84, in either order) and a projected WKT give identical references whichever way maps are walked; (R7) datum-shift lists of three and seven values (also rotation-free and scale-free) keep every value in order, identically from both spellings, and a WKT datum name that only resembles one the reader rewrites keeps the shift written in the text.",
      "Not decided: micrometre agreement of the resulting transformers; parameter regions that take other branches than the reference valuation (spheres, rf = 0); datum renaming heuristics.",
      None)
 
